@@ -38,6 +38,7 @@ func TestZsimC15(t *testing.T) {
 
 type c15Sub struct {
 	s         *Subscriber
+	prefix    string
 	exclusive bool
 	changes   int
 }
@@ -49,7 +50,7 @@ func c15Run(r *zsim.Run) {
 	etcd := internal.NewZsimEtcd(r)
 	endpoints := []string{"etcd-1:2379"}
 	etcd.ZsimRegister(endpoints)
-	const prefix = "svc.rpc"
+	prefixes := []string{"svc.rpc", "svc.aux"}[:1+o.Intn(2)]
 	// same-value keys only when no exclusive subscriber is used (their order of arrival from a snapshot is not defined)
 	useExclusive := o.Intn(3) == 0
 	var subs []*c15Sub
@@ -57,9 +58,12 @@ func c15Run(r *zsim.Run) {
 	nextKey := 0
 	// exclusive mode: value -> most recent key that published it (by delivered event order)
 	lastKey := map[string]string{}
-	expected := func(exclusive bool) []string {
+	expected := func(prefix string, exclusive bool) []string {
 		set := map[string]bool{}
 		for k, v := range live {
+			if !strings.HasPrefix(k, prefix+"/") {
+				continue
+			}
 			if exclusive && lastKey[v] != k {
 				continue
 			}
@@ -76,7 +80,7 @@ func c15Run(r *zsim.Run) {
 		for i, s := range subs {
 			got := append([]string(nil), s.s.Values()...)
 			sort.Strings(got)
-			want := expected(s.exclusive)
+			want := expected(s.prefix, s.exclusive)
 			if strings.Join(got, ",") != strings.Join(want, ",") {
 				r.Failf("view-diverged", "%s: subscriber %d (exclusive=%v) has values %v but the live keys under the prefix carry %v (keys %v)", when, i, s.exclusive, got, want, live)
 				return false
@@ -90,20 +94,21 @@ func c15Run(r *zsim.Run) {
 		if ex {
 			opts = append(opts, Exclusive())
 		}
+		prefix := prefixes[o.Intn(len(prefixes))]
 		s, err := NewSubscriber(endpoints, prefix, opts...)
 		if err != nil {
 			r.Failf("subscribe-error", "NewSubscriber: %v", err)
 			return false
 		}
-		cs := &c15Sub{s: s, exclusive: ex}
+		cs := &c15Sub{s: s, prefix: prefix, exclusive: ex}
 		s.AddListener(func() { cs.changes++ })
 		subs = append(subs, cs)
-		r.Logf("subscriber %d attached exclusive=%v", len(subs)-1, ex)
+		r.Logf("subscriber %d attached to %s exclusive=%v", len(subs)-1, prefix, ex)
 		// a subscriber that joins sees the current set at once
 		if etcd.Connected {
 			got := append([]string(nil), s.Values()...)
 			sort.Strings(got)
-			want := expected(ex)
+			want := expected(prefix, ex)
 			if strings.Join(got, ",") != strings.Join(want, ",") {
 				r.Failf("late-subscriber-stale", "a subscriber attached to an already watched cluster sees %v right after NewSubscriber returned, the live set is %v", got, want)
 				return false
@@ -126,7 +131,7 @@ func c15Run(r *zsim.Run) {
 			return
 		}
 		nextKey++
-		k := fmt.Sprintf("%s/%d", prefix, 1000+nextKey)
+		k := fmt.Sprintf("%s/%d", prefixes[o.Intn(len(prefixes))], 1000+nextKey)
 		v := fmt.Sprintf("10.0.0.%d:80", nextKey)
 		if !useExclusive && o.Intn(4) == 0 && nextKey > 1 {
 			v = fmt.Sprintf("10.0.0.%d:80", 1+o.Intn(nextKey-1)) // shared value
@@ -153,7 +158,10 @@ func c15Run(r *zsim.Run) {
 		for j, s := range subs {
 			before[j] = s.changes
 		}
-		prev := strings.Join(expected(false), ",")
+		prevOf := map[string]string{}
+		for _, p := range prefixes {
+			prevOf[p] = strings.Join(expected(p, false), ",")
+		}
 		switch {
 		case f.Intn(6) == 5 && etcd.Connected: // connection lost: changes happen unseen, then reconnect + reload
 			etcd.Disconnect()
@@ -185,7 +193,7 @@ func c15Run(r *zsim.Run) {
 				r.FaultFired("watch-broken")
 				r.Logf("broke a watch")
 			}
-		case o.Intn(5) == 4 && len(subs) < 3:
+		case o.Intn(5) == 4 && len(subs) < 4:
 			if !attach() {
 				return
 			}
@@ -202,12 +210,11 @@ func c15Run(r *zsim.Run) {
 		if !check(fmt.Sprintf("step %d", i)) {
 			return
 		}
-		if now := strings.Join(expected(false), ","); now != prev {
-			for j, s := range subs {
-				if j < len(before) && !s.exclusive && s.changes == before[j] {
-					r.Failf("listener-not-called", "the live set changed from [%s] to [%s] but subscriber %d's change listener did not run", prev, now, j)
-					return
-				}
+		for j, s := range subs {
+			prev := prevOf[s.prefix]
+			if now := strings.Join(expected(s.prefix, false), ","); now != prev && j < len(before) && !s.exclusive && s.changes == before[j] {
+				r.Failf("listener-not-called", "the live set under %s changed from [%s] to [%s] but subscriber %d's change listener did not run", s.prefix, prev, now, j)
+				return
 			}
 		}
 	}
